@@ -13,7 +13,8 @@ System.  Inside the case the state space  base o rigid motion o deviation  is en
 
 Oracles (all through System):
   * at Q and at every rigid motion of Q: E_pot = 0, h(Q,0) = 0, c(Q,0) = 0, la_c(Q) = 0, g(Q) = 0
-  * for every state s and motion m: E_pot, c(.,la_c), la_c(.), g equal at m.s and s; h(.,u) equal for translations
+  * for every state s and motion m: E_pot, c(.,la_c), la_c(.), g equal at m.s and s; h(.,u), W_c, W_g equal for
+    translations
   * for every state (moved or not): the translational rows of h(s,0), of every column of W_c(s) and of every
     column of W_g(s), summed over the nodes, vanish (columns = responses to la = e_i, hence for all la).
 """
@@ -106,7 +107,7 @@ class _Ev:
             for r in self.rows:
                 res += Mx[r, :]
                 sc = max(sc, float(np.max(np.abs(Mx[r, :]))) if Mx.shape[1] else 0.0)
-            out[name] = (res, sc)
+            out[name] = (res, sc, Mx)
         return out
 
 
@@ -195,9 +196,23 @@ def check(case):
                              {"motion": mname, "state": sname, "dev": sdev, "rel_err": e})
             moved.append((mname, qm, is_trans, vm, hm))
         # zero force resultant at the state and at every moved copy
-        for mname, qm, _, _, hm in moved:
-            res = ev.resultants(qm, None if hm is None else hm["h(q,0)"])
-            for name, (r, sc) in res.items():
+        res_id = None
+        for mname, qm, is_trans, _, hm in moved:
+            res = ev.resultants(qm, hb["h(q,0)"] if mname == "id" else (None if hm is None else hm["h(q,0)"]))
+            if mname == "id":
+                res_id = res
+            elif is_trans:
+                # internal force directions of the mixed / constrained formulations: W(q + c) = W(q)
+                for name in ("W_c", "W_g"):
+                    if name in res:
+                        sc = max(1.0, res_id[name][1])
+                        e = _maxabs(res[name][2] - res_id[name][2]) / sc
+                        stats["max_h_trans_err_rel"] = max(stats["max_h_trans_err_rel"], e)
+                        if not e <= TOL_INV:
+                            fail(f"{name} vs value before translation",
+                                 f"{name} changes by {e:.3e} (rel.) under '{mname}' at state {sname}{sdev or ''}",
+                                 {"motion": mname, "state": sname, "dev": sdev, "rel_err": e})
+            for name, (r, sc, _) in res.items():
                 if sc > 1e-6:
                     force_nonzero = True
                 e = _maxabs(r) / max(1.0, sc) / rod.nnodes_r
